@@ -9,7 +9,7 @@ ROOT = os.path.dirname(os.path.dirname(os.path.abspath(__file__)))
 DST = os.path.join(ROOT, "seeded")
 os.makedirs(DST, exist_ok=True)
 
-confirm, checks = {}, {}
+confirm, checks, first = {}, {}, {}
 for f in sorted(glob.glob(os.path.join(SRC, "batch*.txt")), key=os.path.getmtime):
     for line in open(f, errors="replace"):
         m = re.match(r"SEED (\S+): demo_without_patch_rc=(\d+) unit_with_patch_rc=(\d+) \((.*?)\) demo_with_patch_rc=(\d+)", line)
@@ -18,7 +18,9 @@ for f in sorted(glob.glob(os.path.join(SRC, "batch*.txt")), key=os.path.getmtime
                                    "unit_tests_with_patch": m.group(4), "demo_with_patch_rc": int(m.group(5))}
         m = re.match(r"SEED (\S+): check (\S+) rc=(\d+)\s+(\d+) violation line\(s\); (.*)", line)
         if m:
-            checks.setdefault(m.group(1), {})[m.group(2)] = {"rc": int(m.group(3)), "violation_lines": int(m.group(4)), "summary": m.group(5).strip()[:200]}
+            rec_ = {"rc": int(m.group(3)), "violation_lines": int(m.group(4)), "summary": m.group(5).strip()[:200]}
+            first.setdefault(m.group(1), {}).setdefault(m.group(2), rec_)
+            checks.setdefault(m.group(1), {})[m.group(2)] = rec_
 
 rows = []
 for d in sorted(glob.glob(os.path.join(SRC, "C*_*"))):
@@ -46,16 +48,29 @@ for d in sorted(glob.glob(os.path.join(SRC, "C*_*"))):
     caught = sorted(p for p, r in res.items() if r["rc"] == 1)
     m2 = {"id": sid, "property": meta.get("property", sid.split("_")[0]), "summary": meta.get("summary", ""), "needs": meta.get("needs", ""),
           "demo_cmd": meta.get("demo_cmd", ""), "origin": "independent sub-agent given only the property text and a scratch worktree",
-          "confirmed": c, "ran": {p: r for p, r in res.items()}, "caught_by": caught, "valid_on_current_tree": valid, "note": note,
+          "confirmed": c, "ran": {p: r for p, r in res.items()}, "first_run": first.get(sid, {}), "caught_by": caught, "valid_on_current_tree": valid, "note": note,
           "how_run": "tools/try_seed.sh <seed dir> <scratch worktree> <property>: applies patch.diff in the worktree, runs `cargo test --offline --lib` and the demo, "
                      "then ./check <property> --tier quick from a copy of the committed /verif whose harness depends on the patched worktree"}
     json.dump(m2, open(os.path.join(out, "meta.json"), "w"), indent=1)
     rows.append(m2)
 
+# seeds recorded by earlier sessions (their scratch area is gone): keep their meta.json as it is
+have = {r["id"] for r in rows}
+for d in sorted(glob.glob(os.path.join(DST, "C*_*"))):
+    sid = os.path.basename(d)
+    if sid in have:
+        continue
+    try:
+        rows.append(json.load(open(os.path.join(d, "meta.json"))))
+    except Exception:
+        pass
+rows.sort(key=lambda r: r["id"])
+
 with open(os.path.join(DST, "README.md"), "w") as f:
     f.write("# Seeded changes\n\nEach directory holds a change to zesterer/chumsky that breaks one listed property while compiling and passing the 40 pinned tests, "
             "with a demonstration (`seed_demo.rs`, an integration test that fails with the change and passes without it) and `meta.json`.\n"
-            "They were written by sub-agents that saw only the property text. `caught by` lists the quick checks that exit 1 with the change applied.\n\n")
+            "They were written by sub-agents that saw only the property text. `caught by` lists the quick checks that exit 1 with the change applied "
+            "(for changes that were missed at first, the checks as strengthened afterwards: `first_run` in meta.json keeps the original outcome).\n\n")
     f.write("| id | property | change | needs | caught by (quick) |\n|---|---|---|---|---|\n")
     for r in rows:
         esc = lambda x: x.replace("|", "\\|").replace("\n", " ")
